@@ -324,3 +324,37 @@ def start_trigger_registered_before_the_thread_runs(ctx):
                   'the start trigger is not obtained in startModule (the MultiEvent itself is handed to the thread): when the main thread reaches '
                   'start_events.wait() before the new thread registered its trigger, nothing is registered and the node reports ready before '
                   'the configured values were written and the first polls were done', sm)
+
+
+@rule('C15.R6', min_instances=2)
+def start_event_flag_follows_the_pending_set(ctx):
+    """MultiEvent (the server waits on it for 'all poll threads finished their first round'): the flag of the underlying
+    Event is cleared whenever an event is added (clear_: add, then clear, on every path) and set only when the last
+    pending event is gone (set_: the set() call is behind the `if self.events: return` test) - otherwise the wait
+    returns while a poll thread registered later has not finished its first round"""
+    m = ctx.m
+    ME = 'frappy.lib.multievent.MultiEvent'
+    cl = m.method(ME, 'clear_', inherited=False)
+    ctx.analysed(cl)
+    cfg = CFG(cl.node, m, cl.module)
+    adds = [i for c in calls_in(cl.node) if call_attr(c) == 'add' and 'events' in src(c.func) for i in cfg.node_of(c)]
+    clears = [i for c in calls_in(cl.node) if call_attr(c) == 'clear' and 'super()' in src(c.func) for i in cfg.node_of(c)]
+    if not adds:
+        raise AnchorMissing('MultiEvent.clear_ does not add to self.events')
+    ok = bool(clears) and cfg.all_paths_pass(adds, [cfg.exit], clears, exc=False)
+    ctx.check(ok, f'{cl.qualname}:flag cleared whenever an event is added', cl.node, 'events.add(...) is followed by super().clear() on every path',
+              'an event can be added without clearing the flag: once all earlier events were set, the flag stays set although a new event is '
+              'pending - Server._processCfg stops waiting (reports ready) while the poll thread of a later module has not finished its first round', cl)
+    st = m.method(ME, 'set_', inherited=False)
+    ctx.analysed(st)
+    cfgs = CFG(st.node, m, st.module)
+    sets = [i for c in calls_in(st.node) if call_attr(c) == 'set' and 'super()' in src(c.func) for i in cfgs.node_of(c)]
+    tests = [t.id for t in cfgs.nodes if t.kind == 'test' and src(t.ast) in ('self.events', 'not self.events')]
+    ok = bool(sets) and bool(tests)
+    for t in tests:
+        on_t = cfgs.reach([t], labels={'T'}, avoid=[t])
+        on_f = cfgs.reach([t], labels={'F'}, avoid=[t])
+        pending_side = on_t if src(cfgs.nodes[t].ast) == 'self.events' else on_f
+        ok = ok and not (set(sets) & pending_side) and all(cfgs.dominates([t], i) for i in sets)
+    ctx.check(ok, f'{st.qualname}:flag set only when nothing is pending', st.node, 'super().set() only behind the emptiness test of self.events',
+              'the flag can be set while events are still pending', st)
